@@ -16,4 +16,5 @@ def check(tier, seed):
                      "of the inputs only (evaluators, products and wrappers are proved to denote their equations; deletions are proved never to "
                      "remove start data or an in-flight entry).  No-mutation = frame obligations: one per store site of every function under "
                      "contract (pyvc/effects.py), plus aliasing obligations on in-place updates inside the symbolic execution.")
+    d.run_battery("series_battery.py", ['history', 'fault', 'index'], "shapes <= (2,3), <= 2 infinite dimensions, orders <= 3, fixed list of index entries, 4x4 two-block problems; see replay/series_battery.py")
     return d.finish(level="proof", trusted_base=["contracts/series_index.py", "contracts/series_product.py", "contracts/algorithm_evals.py", "contracts/frame.py", "pyvc/effects.py"])
